@@ -2,6 +2,7 @@
 import core
 import gen
 import tokens as tk
+import validity
 from boot import pm, pt
 
 OK_EXC = ValueError  # ReplaceError, TransformError, UnicodeDecodeError are subclasses
@@ -72,6 +73,7 @@ class ApplyMonitors:
             outcome = "internal"
         elif res.failed:
             outcome = "failed"
+            self.probes["C01.failed:" + " ".join(str(res.failed).split()[:3])] += 1
         elif res.doc is None:
             outcome = "internal"
         else:
@@ -81,6 +83,11 @@ class ApplyMonitors:
             except ValueError as e:
                 outcome = "invalid"
                 err = str(e)
+            if outcome == "valid":
+                probs = validity.problems(res.doc)
+                if probs:
+                    outcome = "invalid"
+                    err = "own validity walk: " + "; ".join(probs[:3])
         self.probes["C01.outcome:" + outcome] += 1
         self.probes["C01.kind:" + kind] += 1
         if stale:
@@ -242,7 +249,7 @@ class ApplyMonitors:
                         "recorded": [m.ranges, m.inverted], "step_map": [g.ranges, g.inverted]})
         if "C08" in self.on:
             self.c08_transform(tr)
-        if "C16" in self.on and self.is_core():
+        if ("C16" in self.on and self.is_core()) or "C10" in self.on:
             n = len(tr.steps)
             for i in range(n - 1):
                 try:
@@ -335,6 +342,14 @@ class ApplyMonitors:
         if not self.doc_equal(d, tr.before) or not d.eq(tr.before):
             self.violation("C04", "undo.history_not_exact", dict(
                 det, steps=[self.describe_step(s) for s in tr.steps], got=d.to_json()))
+
+    def on_invert_raised(self, step, doc, e):
+        kind = core.step_kind(step)
+        if kind in ("attr", "docAttr") and isinstance(e, (KeyError, AssertionError)):
+            return
+        self.violation("C04", "invert.raised", {"shape": kind + ":" + type(e).__name__,
+                                                "step": self.describe_step(step), "doc": doc.to_json(),
+                                                "error": repr(e)})
 
     # ------------------------------------------------------------------ C04 recovery / rebase hooks
     def on_recover_version(self, who, version, doc):
